@@ -2,9 +2,9 @@
    Directives: ExtrOcamlBasic only (bool, option, list, prod, unit, sumbool -> OCaml natives);
    N, Z, positive stay Coq datatypes. *)
 From Coq Require Extraction ExtrOcamlBasic.
-From Schwifty Require Import Lib.Base Lib.Regex Model.Clean Model.Data Model.Iban Model.Bic Model.Bban.
+From Schwifty Require Import Lib.Base Lib.Regex Model.Clean Model.Data Model.Iban Model.Bic Model.Bban Model.Registry Model.Lookup Lib.Json.
 From Schwifty Require Import Gen.Env Gen.IbanData Gen.IbanCfg Gen.BicCfg.
-From Schwifty Require Import Spec.Iso13616 Spec.Iso9362 Spec.Defects.
+From Schwifty Require Import Spec.Iso13616 Spec.Iso9362 Spec.Defects Spec.RegistrySpec.
 
 Definition national_stub (cc bban : text) : outcome bool := Ok true.
 
@@ -51,6 +51,27 @@ Definition x_iban_dd := iban_checksum_digits.
 Definition x_iban_bban := iban_bban the_env.
 Definition x_text_eqb := text_eqb.
 
+Definition x_merge_dicts := merge_dicts (fun ks => ks).
+Definition x_parse_v2 := parse_v2.
+Definition x_registry_get := registry_get (fun ks => ks).
+
+(* the bank list is loaded by the driver at run time from Gen/banks.tsv (written by the same
+   translator run that writes Gen/Banks_*.v): OCaml cannot compile a 29 000-element literal *)
+Definition x_candidates (R : banks) := candidates the_env the_bic_cfg iso3166 R.
+Definition x_from_bank_code (R : banks) := from_bank_code the_env the_bic_cfg iso3166 R.
+Definition x_domestic_bank_codes (R : banks) := domestic_bank_codes R.
+Definition x_bic_exists (R : banks) := bic_exists R.
+Definition x_bank_ids (R : banks) := bank_ids R.
+Definition x_bban_bank (R : banks) := bban_bank the_table (bank_code_entries R).
+Definition x_bban_bic (R : banks) (cc b : text) : outcome (option text) :=
+  do key <- bban_lookup_key the_table cc b;
+  match x_from_bank_code R cc key with Ok x => Ok (Some x) | Err _ => Ok None | Crash c => Crash c end.
+Definition x_mk_entry (i : N) (cc code : text) (bic : option text) (prim : bool) (algo : option text) : entry :=
+  {| e_id := i; e_cc := cc; e_code := code; e_bic := bic; e_primary := prim; e_algo := algo |}.
+Definition s_wf_bank (en : entry) : bool := wf_bank the_table iso3166 en.
+Definition s_wf_country (cc : text) : bool :=
+  match find_row the_table cc with Some r => wf_country r | None => false end.
+
 Extraction Language OCaml.
 Set Extraction KeepSingleton.
 Extraction "extract/model.ml"
@@ -58,4 +79,7 @@ Extraction "extract/model.ml"
   x_pat_apply x_chars_pat x_chars_method x_format_method x_row_regex
   s_iso_ok s_check_digits s_conforms
   x_bic_new x_bic_validate x_bic_is_valid x_bic_formatted x_bic_parts x_bic_pat s_iso9362_ok s_iban_verdict s_bic_verdict
-  x_bban_component x_iban_cc x_iban_dd x_iban_bban x_text_eqb.
+  x_bban_component x_iban_cc x_iban_dd x_iban_bban x_text_eqb
+  x_merge_dicts x_parse_v2 x_registry_get
+  x_candidates x_from_bank_code x_domestic_bank_codes x_bic_exists x_bank_ids x_bban_bank x_bban_bic x_mk_entry
+  s_wf_bank s_wf_country.
